@@ -22,9 +22,14 @@ META = {
 }
 DOC1 = "http://r.test/doc.json"
 DOC2 = "http://r.test/two.json"
+DOC3 = "http://r.test/Doc.json"          # differs from DOC1 only by case: a different document
+
+
+class HandlerDown(Exception):
+    pass
 META_IDS = {3: "http://json-schema.org/draft-03/schema", 4: "http://json-schema.org/draft-04/schema",
             6: "http://json-schema.org/draft-06/schema", 7: "http://json-schema.org/draft-07/schema"}
-KEYS = ["a", "b", "c", "d", "e", "m", "n", "s", "t"]
+KEYS = ["a", "b", "c", "d", "e", "m", "n", "s", "t", "u"]
 
 
 def schema_for(d):
@@ -34,6 +39,7 @@ def schema_for(d):
         "c": {"$ref": DOC1 + "#"},
         "d": {"$ref": DOC1},
         "e": {"$ref": DOC2 + "#/definitions/a"},
+        "u": {"$ref": DOC3 + "#/definitions/a"},
         "m": {"$ref": META_IDS[d] + "#/properties/maxLength" if d in (3, 4) else META_IDS[d] + "#/definitions/nonNegativeInteger"},
         "n": {"$ref": META_IDS[7] + "#/definitions/nonNegativeInteger"},
         "s": {"$ref": "http://s.test/in-store.json#/definitions/a"},
@@ -51,6 +57,8 @@ def oracle(d, key, val):
         return []
     if key == "e":
         return [] if val <= 30 else ["maximum"]
+    if key == "u":
+        return [] if val <= 33 else ["maximum"]
     if key == "m":
         if d == 3:
             return []                 # Draft 3 metaschema: maxLength is just {"type": "integer"}
@@ -73,23 +81,31 @@ def caches(which, resolver_box):
 def history(d, n, cache_kind="default"):
     cls = tp.CLS[d]
 
-    def pre(keys, vals, direct, cache_remote, faults):
-        if len(keys) != n or len(vals) != n or len(direct) != n or len(faults) != 3:
+    def pre(keys, vals, direct, cache_remote, faults, exc_kind):
+        if len(keys) != n or len(vals) != n or len(direct) != n or len(faults) != 3 or not (0 <= exc_kind < 4):
             return False
         for k in keys:
             if not (0 <= k < len(KEYS)):
                 return False
         return True
 
-    def body(keys, vals, direct, cache_remote, faults):
-        docs = {DOC1: {"definitions": {"a": {"maximum": 3}, "b": {"minimum": 1}}}, DOC2: {"definitions": {"a": {"maximum": 30}}}}
+    def body(keys, vals, direct, cache_remote, faults, exc_kind):
+        docs = {DOC1: {"definitions": {"a": {"maximum": 3}, "b": {"minimum": 1}}}, DOC2: {"definitions": {"a": {"maximum": 30}}},
+                DOC3: {"definitions": {"a": {"maximum": 33}}}}
         log = []
         netlog = []
 
         def handler(uri):
             log.append(uri)
             if len(log) <= len(faults) and faults[len(log) - 1]:
-                raise OSError("boom")
+                # any failure of a handler, whatever its class
+                if exc_kind == 0:
+                    raise OSError("boom")
+                if exc_kind == 1:
+                    raise KeyError(uri)
+                if exc_kind == 2:
+                    raise RuntimeError("boom")
+                raise HandlerDown(uri)
             return docs[uri]
 
         def no_network(*a, **k):
@@ -149,7 +165,7 @@ def history(d, n, cache_kind="default"):
             return False, "network-touched"
         good = [u for j, u in enumerate(log) if not (j < len(faults) and faults[j])]
         if cache_remote:
-            for u in (DOC1, DOC2):
+            for u in (DOC1, DOC2, DOC3):
                 if len([g for g in good if g == u]) > 1:
                     return False, "fetched-twice"
         else:
@@ -157,7 +173,7 @@ def history(d, n, cache_kind="default"):
                 return False, "store-grew"
         return True, tag
 
-    return Spec([("keys", List[int]), ("vals", List[int]), ("direct", List[bool]), ("cache_remote", bool), ("faults", List[bool])],
+    return Spec([("keys", List[int]), ("vals", List[int]), ("direct", List[bool]), ("cache_remote", bool), ("faults", List[bool]), ("exc_kind", int)],
                 pre, body, tags=["clean", "fault-surfaced"])
 
 
@@ -165,8 +181,8 @@ def cube(d, n, cache_kind, first_key):
     spec = history(d, n, cache_kind)
     inner = spec.pre
 
-    def pre(keys, vals, direct, cache_remote, faults):
-        return inner(keys, vals, direct, cache_remote, faults) and keys[0] == first_key
+    def pre(keys, vals, direct, cache_remote, faults, exc_kind):
+        return inner(keys, vals, direct, cache_remote, faults, exc_kind) and keys[0] == first_key
 
     spec.pre = pre
     return spec
